@@ -3,6 +3,7 @@ import Nri.Proofs.LibMem
 import Nri.Proofs.LibMemInv
 import Nri.Proofs.LibMemTrack
 import Nri.Proofs.LibMemUpd
+import Nri.Proofs.LibMemChk
 /-!
 C07/C04 capacity clause over whole histories: every ASSIGNED zone holds no more than its
 capacity after every operation.  Ingredients: the zone table contains every assigned zone
@@ -243,5 +244,493 @@ theorem fit_core (b F : St) (ex : String) (nodes0 : Mask) (hbnd : IdsNodup b)
     rw [hcap, zoneUsage_eq]
     rw [zoneUsage_eq] at hold
     omega
+
+/-! ### `Allocate` -/
+
+def Ent (s : St) : Prop := ∀ q ∈ s.reqs, q.zone ≠ 0 → q.zone ∈ s.entries
+def FitInv (s : St) : Prop := ∀ q ∈ s.reqs, q.zone ≠ 0 → 0 ≤ s.zoneFree q.zone
+def Sizes (s : St) : Prop := ∀ q ∈ s.reqs, 0 ≤ q.size
+
+theorem ent_cleanup (s : St) (h : Ent s) : Ent s.cleanupUnusedZones := by
+  intro q hq hz
+  unfold St.cleanupUnusedZones
+  apply List.mem_filter.2
+  refine ⟨h q hq hz, ?_⟩
+  have := numUsers_ne_zero s q hq hz
+  simpa using this
+
+/-- the overcommit check at the end of a successful internal `allocate` passed -/
+theorem allocate_ok_chk (s : St) (r r' : Req) (h : (s.allocate r).2 = .ok r') :
+    (((withNew s r').startJournal.zoneMove r'.zone r'.id).handleOvercommit r'.zone).2 = none := by
+  unfold St.allocate at h
+  cases hv : s.validateRequest r with
+  | error e => simp [hv] at h
+  | ok t1 =>
+    simp only [hv] at h
+    cases hf : s.findInitialZone { r with types := t1 } with
+    | error e => simp [hf] at h
+    | ok z1 =>
+      simp only [hf] at h
+      cases hn : s.ensureNormalMemory { r with types := t1, zone := z1 } with
+      | error e => simp [hn] at h
+      | ok zt =>
+        obtain ⟨z2, t2⟩ := zt
+        simp only [hn] at h
+        have hnone := validateRequest_spec s r t1 hv
+        cases hh : (({ s.startJournal with reqs := s.startJournal.reqs ++ [{ ({ r with types := t2, zone := z2 } : Req) with zone := 0 }] } : St).zoneAssign z2 r.id).handleOvercommit z2 with
+        | mk s2 oe =>
+          simp only [hh] at h
+          cases oe with
+          | some e => simp only [] at h; cases h
+          | none =>
+            simp only [Except.ok.injEq] at h
+            subst h
+            simp only []
+            have heq : ({ s.startJournal with reqs := s.startJournal.reqs ++ [{ ({ r with types := t2, zone := z2 } : Req) with zone := 0 }] } : St)
+                = (withNew s { r with types := t2, zone := z2 }).startJournal := by
+              simp [withNew, St.startJournal]
+            have hreq : (withNew s { r with types := t2, zone := z2 }).startJournal.req? r.id = some { ({ r with types := t2, zone := z2 } : Req) with zone := 0 } := by
+              unfold St.req? withNew St.startJournal
+              simp only [List.find?_append]
+              have : s.reqs.find? (·.id == r.id) = none := hnone
+              simp [this]
+            have hmove : (withNew s { r with types := t2, zone := z2 }).startJournal.zoneAssign z2 r.id
+                = (withNew s { r with types := t2, zone := z2 }).startJournal.zoneMove z2 r.id := by
+              unfold St.zoneMove
+              simp [hreq]
+            rw [← hmove, ← heq, hh]
+
+theorem Allocate_fit (s : St) (hw : WF s) (hp : Placed s) (hsz : Sizes s) (hent : Ent s) (hfit : FitInv s)
+    (r : Req) (hr : 0 ≤ r.size) (res : Result) (h : (s.Allocate r).2 = .ok res) :
+    Sizes (s.Allocate r).1 ∧ Ent (s.Allocate r).1 ∧ FitInv (s.Allocate r).1 := by
+  obtain ⟨r', ha, hreqs, hnodes⟩ := Allocate_ok_shape s r res h
+  obtain ⟨hnone, hnorm, _, _, hsize, heq⟩ := allocate_ok_eq s r r' ha
+  have hchk0 := allocate_ok_chk s r r' ha
+  have hz : r'.zone ≠ 0 := and_ne_zero_left hnorm
+  have hg : Good (withNew s r') (s.allocate r).1 := ((allocate_spec s hw r).2 r' ha).1
+  obtain ⟨_, ht⟩ := allocate_track s hw hp r r' ha
+  have hbnd : IdsNodup (withNew s r') := withNew_ids_nodup s hw r' hnone
+  have hb0 : IdsNodup (withNew s r').startJournal := hbnd
+  have hmem0 : ({ r' with zone := 0 } : Req) ∈ (withNew s r').startJournal.reqs := by
+    simp [withNew, St.startJournal]
+  have hback : ({ ({ r' with zone := 0 } : Req) with zone := r'.zone } : Req) = r' := by cases r'; rfl
+  have hne0 : ({ r' with zone := 0 } : Req).zone ≠ r'.zone := fun e => hz e.symm
+  -- EF at the start of overcommit handling
+  have hef0 : EF (withNew s r') r'.zone ((withNew s r').startJournal.zoneMove r'.zone r'.id) := by
+    have hcases : ∀ q' ∈ ((withNew s r').startJournal.zoneMove r'.zone r'.id).reqs,
+        (q' ∈ (withNew s r').reqs ∧ q'.id ≠ r'.id) ∨ q' = r' := by
+      intro q' hq'
+      have := zoneMove_reqs_mem (withNew s r').startJournal hb0 { r' with zone := 0 } hmem0 r'.zone q' hq'
+      rw [hback] at this
+      exact this
+    refine ⟨?_, ?_⟩
+    · intro q' hq' hzq
+      rcases hcases q' hq' with ⟨hq, hid⟩ | e
+      · simp only [withNew, List.mem_append, List.mem_singleton] at hq
+        rcases hq with hq | hq
+        · exact zoneMove_entries_sup _ _ _ _ (hent q' hq hzq)
+        · subst hq; exact absurd rfl hid
+      · subst e
+        exact zoneMove_entries_self (withNew s q').startJournal hb0 { q' with zone := 0 } hmem0 q'.zone hne0
+    · intro q' hq' hzq
+      rcases hcases q' hq' with ⟨hq, _⟩ | e
+      · exact absurd (zoneIn_of_mem _ hbnd q' hq).symm hzq
+      · subst e; rw [Nat.and_self]; exact hz
+  have hnd1 : IdsNodup ((withNew s r').startJournal.zoneMove r'.zone r'.id) := by
+    unfold IdsNodup; rw [zoneMove_ids]; exact hbnd
+  have hef := handleOvercommit_ef (withNew s r') r'.zone hz _ hnd1 hef0
+  have hchk := handleOvercommit_ok_fits _ r'.zone hchk0
+  rw [← heq] at hef hchk
+  -- the old zones fit in `withNew s r'` as they did in `s`
+  have hbsz : ∀ q ∈ (withNew s r').reqs, 0 ≤ q.size := by
+    intro q hq
+    simp only [withNew, List.mem_append, List.mem_singleton] at hq
+    rcases hq with hq | hq
+    · exact hsz q hq
+    · subst hq; show 0 ≤ r'.size; rw [hsize]; exact hr
+  have hbfree : ∀ z, (withNew s r').zoneFree z = s.zoneFree z := by
+    intro z
+    unfold St.zoneFree
+    have hc : (withNew s r').zoneCapacity z = s.zoneCapacity z := rfl
+    rw [hc, zoneUsage_eq, zoneUsage_eq]
+    show _ - usageL (s.reqs ++ [{ r' with zone := 0 }]) z = _
+    rw [usageL_append]
+    have : usageL [({ r' with zone := 0 } : Req)] z = 0 := by simp [usageL]
+    rw [this]; simp
+  have hbfit : ∀ q ∈ (withNew s r').reqs, q.zone ≠ 0 → 0 ≤ (withNew s r').zoneFree q.zone := by
+    intro q hq hzq
+    rw [hbfree]
+    simp only [withNew, List.mem_append, List.mem_singleton] at hq
+    rcases hq with hq | hq
+    · exact hfit q hq hzq
+    · subst hq; exact absurd rfl hzq
+  have hcore := fit_core (withNew s r') (s.allocate r).1 r'.id r'.zone hbnd hg ht hef
+    (fun z hz htz => hchk z hz (Or.inr htz)) hbsz hbfit
+  refine ⟨?_, ?_, ?_⟩
+  · -- sizes
+    intro q hq
+    rw [hreqs] at hq
+    obtain ⟨⟨Z, j, hr2, _⟩, _, _⟩ := hg
+    rw [hr2] at hq
+    obtain ⟨qb, hqb, e⟩ := List.mem_map.1 hq
+    rw [← e]; exact hbsz qb hqb
+  · -- zone table
+    have hfinal : (s.Allocate r).1 = St.cleanupUnusedZones
+        { ((s.allocate r).1.commitJournal r'.id).1 with version := ((s.allocate r).1.commitJournal r'.id).1.version + 1 } := by
+      unfold St.Allocate
+      cases ha' : s.allocate r with
+      | mk s' res' =>
+        rw [ha'] at ha
+        simp only [] at ha
+        subst ha
+        rfl
+    rw [hfinal]
+    apply ent_cleanup
+    intro q hq hzq
+    have hq' : q ∈ (s.allocate r).1.reqs := by
+      have : ((s.allocate r).1.commitJournal r'.id).1.reqs = (s.allocate r).1.reqs := commitJournal_reqs _ _
+      simpa [this] using hq
+    have := hef.ent q hq' hzq
+    show q.zone ∈ ((s.allocate r).1.commitJournal r'.id).1.entries
+    unfold St.commitJournal
+    split <;> exact this
+  · intro q hq hzq
+    rw [hreqs] at hq
+    rw [zoneFree_of_reqs _ _ hreqs hnodes]
+    exact hcore q hq hzq
+
+/-! ### `Realloc` -/
+
+theorem Realloc_ok_shape2 (s : St) (id : String) (nodes : Mask) (types : Nat) (res : Result)
+    (h : (s.Realloc id nodes types).2 = .ok res) :
+    (s.Realloc id nodes types).1 = s ∨
+    ∃ (r : Req) (target : Mask) (t : Nat) (S4 : St), s.req? id = some r ∧ msub r.zone target = true ∧ target ≠ 0 ∧
+      ((s.startJournal.zoneMove target id).handleOvercommit target).2 = none ∧
+      (s.Realloc id nodes types).1 = S4.cleanupUnusedZones ∧
+      S4.reqs = (((s.startJournal.zoneMove target id).handleOvercommit target).1).reqs.map (addTypes id t) ∧
+      S4.entries = (((s.startJournal.zoneMove target id).handleOvercommit target).1).entries ∧
+      S4.nodes = (((s.startJournal.zoneMove target id).handleOvercommit target).1).nodes := by
+  unfold St.Realloc at h ⊢
+  cases hr : s.req? id with
+  | none => simp [hr] at h
+  | some r =>
+    simp only [hr] at h ⊢
+    cases hv : s.validateRealloc r nodes types with
+    | error e' => simp [hv] at h
+    | ok v =>
+      obtain ⟨n1, t1, fl⟩ := v
+      cases fl with
+      | true => left; rfl
+      | false =>
+        right
+        simp only [hv] at h ⊢
+        cases hx : s.startJournal.expand (r.zone ||| n1) t1 with
+        | mk newNodes newTypes =>
+          simp only [hx] at h ⊢
+          by_cases hz : (newNodes == 0) = true
+          · simp [hz] at h
+          · simp only [hz, Bool.false_eq_true, if_false] at h ⊢
+            have hne : r.zone ||| n1 ||| newNodes ≠ 0 := by
+              intro hh
+              have := (Nat.or_eq_zero_iff.1 hh).2
+              simp [this] at hz
+            cases ho : (s.startJournal.zoneMove (r.zone ||| n1 ||| newNodes) id).handleOvercommit (r.zone ||| n1 ||| newNodes) with
+            | mk s3 oe =>
+              simp only [ho] at h ⊢
+              cases oe with
+              | some e' => simp at h
+              | none =>
+                simp only []
+                refine ⟨r, r.zone ||| n1 ||| newNodes, newTypes, _, rfl, ?_, hne, ?_, rfl, ?_, ?_, ?_⟩
+                · exact msub_or_right newNodes (msub_or_self r.zone n1)
+                · rw [ho]
+                · rw [commitJournal_reqs, ho]; rfl
+                · rw [ho]; simp only [St.commitJournal]; split <;> rfl
+                · rw [ho]; simp only [St.commitJournal]; split <;> rfl
+
+theorem Realloc_fit (s : St) (hw : WF s) (hp : Placed s) (hsz : Sizes s) (hent : Ent s) (hfit : FitInv s)
+    (id : String) (nodes : Mask) (types : Nat) (res : Result) (h : (s.Realloc id nodes types).2 = .ok res) :
+    Sizes (s.Realloc id nodes types).1 ∧ Ent (s.Realloc id nodes types).1 ∧ FitInv (s.Realloc id nodes types).1 := by
+  have hnd : IdsNodup s := hw.ids
+  rcases Realloc_ok_shape2 s id nodes types res h with e | ⟨r, target, t, S4, hr, hsub, hne, hok, hfin, hreqs, hents, hnodes⟩
+  · rw [e]; exact ⟨hsz, hent, hfit⟩
+  · have hrm : r ∈ s.reqs := List.mem_of_find?_eq_some hr
+    have hrid : r.id = id := by have := List.find?_some hr; simpa using this
+    subst hrid
+    have hb0 : IdsNodup s.startJournal := hnd
+    have hcases : ∀ q' ∈ (s.startJournal.zoneMove target r.id).reqs,
+        (q' ∈ s.reqs ∧ q'.id ≠ r.id) ∨ q' = { r with zone := target } := by
+      intro q' hq'
+      exact zoneMove_reqs_mem s.startJournal hb0 r hrm target q' hq'
+    have hnm : (s.startJournal.zoneMove target r.id).normalMask = s.normalMask :=
+      normalMask_of_nodes _ _ (by rw [zoneMove_nodes]; rfl)
+    have ht0 : Track s r.id (s.startJournal.zoneMove target r.id) := by
+      refine ⟨?_, ?_, ?_, ?_⟩
+      · intro q' hq'
+        rcases hcases q' hq' with ⟨hq, _⟩ | e
+        · rw [zoneIn_of_mem s hnd q' hq]; exact msub_refl _
+        · subst e
+          show msub (zoneIn s r.id) target = true
+          rw [zoneIn_of_mem s hnd r hrm]; exact hsub
+      · intro q' hq' _ hne'
+        rcases hcases q' hq' with ⟨hq, _⟩ | e
+        · exact (zoneIn_of_mem s hnd q' hq).symm
+        · subst e; exact absurd rfl hne'
+      · intro q' hq'
+        rw [hnm]
+        rcases hcases q' hq' with ⟨hq, _⟩ | e
+        · exact hp q' hq
+        · subst e; exact and_ne_zero_of_msub hsub (hp r hrm)
+      · rw [zoneMove_nodes]; rfl
+    have hef0 : EF s target (s.startJournal.zoneMove target r.id) := by
+      refine ⟨?_, ?_⟩
+      · intro q' hq' hzq
+        rcases hcases q' hq' with ⟨hq, _⟩ | e
+        · exact zoneMove_entries_sup _ _ _ _ (hent q' hq hzq)
+        · subst e
+          by_cases hsame : r.zone = target
+          · show target ∈ _
+            rw [← hsame]
+            exact zoneMove_entries_sup _ _ _ _ (hent r hrm (by rw [hsame]; exact hne))
+          · exact zoneMove_entries_self s.startJournal hb0 r hrm target hsame
+      · intro q' hq' hzq
+        rcases hcases q' hq' with ⟨hq, _⟩ | e
+        · exact absurd (zoneIn_of_mem s hnd q' hq).symm hzq
+        · subst e; show target &&& target ≠ 0; rw [Nat.and_self]; exact hne
+    have hnd1 : IdsNodup (s.startJournal.zoneMove target r.id) := by
+      unfold IdsNodup; rw [zoneMove_ids]; exact hnd
+    have hg0 : Good s s.startJournal := good_start s hw.journal hw.ids
+    have hg := handleOvercommit_good s _ (zoneMove_good s _ hg0 target hne r.id) target
+    obtain ⟨_, ht⟩ := handleOvercommit_track s r.id _ target hnd1 ht0
+    have hef := handleOvercommit_ef s target hne _ hnd1 hef0
+    have hchk := handleOvercommit_ok_fits _ target hok
+    have hcore := fit_core s _ r.id target hnd hg ht hef (fun z hz htz => hchk z hz (Or.inr htz)) hsz
+      (fun q hq hzq => hfit q hq hzq)
+    -- transfer through the types update and the clean-up
+    have hS4free : ∀ z, S4.zoneFree z = (((s.startJournal.zoneMove target r.id).handleOvercommit target).1).zoneFree z := by
+      intro z
+      unfold St.zoneFree St.zoneCapacity
+      rw [hnodes, zoneUsage_eq, zoneUsage_eq, hreqs]
+      have : usageL (List.map (addTypes r.id t) (((s.startJournal.zoneMove target r.id).handleOvercommit target).1).reqs) z
+          = usageL (((s.startJournal.zoneMove target r.id).handleOvercommit target).1).reqs z := by
+        generalize (((s.startJournal.zoneMove target r.id).handleOvercommit target).1).reqs = l
+        induction l with
+        | nil => rfl
+        | cons q l ih =>
+          rw [List.map_cons, usageL_cons, usageL_cons, ih, addTypes_zone]
+          have : (addTypes r.id t q).size = q.size := by unfold addTypes; split <;> rfl
+          rw [this]
+      rw [this]
+    rw [hfin]
+    refine ⟨?_, ?_, ?_⟩
+    · intro q hq
+      have hq' : q ∈ S4.reqs := hq
+      rw [hreqs] at hq'
+      obtain ⟨q0, hq0, e⟩ := List.mem_map.1 hq'
+      have : q.size = q0.size := by rw [← e]; unfold addTypes; split <;> rfl
+      rw [this]
+      obtain ⟨⟨Z, j, hr2, _⟩, _, _⟩ := hg
+      rw [hr2] at hq0
+      obtain ⟨qb, hqb, e2⟩ := List.mem_map.1 hq0
+      rw [← e2]; exact hsz qb hqb
+    · apply ent_cleanup
+      intro q hq hzq
+      rw [hreqs] at hq
+      obtain ⟨q0, hq0, e⟩ := List.mem_map.1 hq
+      rw [hents, ← e, addTypes_zone]
+      rw [← e, addTypes_zone] at hzq
+      exact hef.ent q0 hq0 hzq
+    · intro q hq hzq
+      have hq' : q ∈ S4.reqs := hq
+      rw [zoneFree_of_reqs S4 S4.cleanupUnusedZones rfl rfl, hS4free]
+      rw [hreqs] at hq'
+      obtain ⟨q0, hq0, e⟩ := List.mem_map.1 hq'
+      rw [← e, addTypes_zone]
+      rw [← e, addTypes_zone] at hzq
+      exact hcore q0 hq0 hzq
+
+/-! ### failing operations, offers and releases keep the zone table complete -/
+
+theorem ent_of_sup (s S : St) (hr : S.reqs = s.reqs) (hs : EntSup s S) (h : Ent s) : Ent S := by
+  intro q hq hz
+  rw [hr] at hq
+  exact hs _ (h q hq hz)
+
+theorem allocate_entries_sup (s : St) (hw : WF s) (r : Req) : EntSup s (s.allocate r).1 := by
+  unfold St.allocate
+  cases hv : s.validateRequest r with
+  | error e => exact fun z hz => hz
+  | ok t1 =>
+    simp only []
+    cases hf : s.findInitialZone { r with types := t1 } with
+    | error e => exact fun z hz => hz
+    | ok z1 =>
+      simp only []
+      cases hn : s.ensureNormalMemory { r with types := t1, zone := z1 } with
+      | error e => exact fun z hz => hz
+      | ok zt =>
+        obtain ⟨z2, t2⟩ := zt
+        simp only []
+        have hnone := validateRequest_spec s r t1 hv
+        let r3 : Req := { r with types := t2, zone := z2 }
+        have hnone3 : s.req? r3.id = none := hnone
+        have hnd0 : IdsNodup (({ s.startJournal with reqs := s.startJournal.reqs ++ [{ r3 with zone := 0 }] } : St).zoneAssign z2 r3.id) := by
+          unfold IdsNodup
+          rw [zoneAssign_ids]
+          exact withNew_ids_nodup s hw r3 hnone3
+        have hsup0 : EntSup s (({ s.startJournal with reqs := s.startJournal.reqs ++ [{ r3 with zone := 0 }] } : St).zoneAssign z2 r3.id) :=
+          fun z hz => zoneAssign_entries_sup _ _ _ z hz
+        have hsup1 := handleOvercommit_entsup s _ z2 hnd0 hsup0
+        cases hh : (({ s.startJournal with reqs := s.startJournal.reqs ++ [{ r3 with zone := 0 }] } : St).zoneAssign z2 r3.id).handleOvercommit z2 with
+        | mk s2 oe =>
+          rw [hh] at hsup1
+          cases oe with
+          | none => exact hsup1
+          | some e => exact fun z hz => revertJournal_entries_sup _ _ z (hsup1 z hz)
+
+theorem Allocate_fail_ent (s : St) (hw : WF s) (hent : Ent s) (r : Req) (e : Err) (h : (s.Allocate r).2 = .error e) :
+    Ent (s.Allocate r).1 := by
+  have hs := allocate_spec s hw r
+  have hsup := allocate_entries_sup s hw r
+  unfold St.Allocate at h ⊢
+  cases ha : s.allocate r with
+  | mk s' res =>
+    rw [ha] at hs hsup h
+    cases res with
+    | ok r' => simp only [] at h; cases h
+    | error e' =>
+      simp only []
+      exact ent_cleanup _ (ent_of_sup s s' (hs.1 e' rfl).1 hsup hent)
+
+theorem GetOffer_ent (s : St) (hw : WF s) (hent : Ent s) (r : Req) : Ent (s.GetOffer r).1 := by
+  have hs := allocate_spec s hw r
+  have hsup := allocate_entries_sup s hw r
+  unfold St.GetOffer
+  cases ha : s.allocate r with
+  | mk s' res =>
+    rw [ha] at hs hsup
+    cases res with
+    | error e' =>
+      simp only []
+      exact ent_cleanup _ (ent_of_sup s s' (hs.1 e' rfl).1 hsup hent)
+    | ok r' =>
+      obtain ⟨hg, hnone, _⟩ := hs.2 r' rfl
+      have hrr := revert_restores_drop (withNew s r') s' hg (withNew_ids_nodup s hw r' hnone) r'.id
+      have hsup2 : EntSup s (s'.revertJournal (some r'.id)).1 :=
+        fun z hz => revertJournal_entries_sup _ _ z (hsup z hz)
+      have hreqs : (s'.revertJournal (some r'.id)).1.reqs = s.reqs := by
+        rw [hrr.2.1]
+        exact filter_append_new s.reqs { r' with zone := 0 } (req?_none_not_mem s _ hnone)
+      simp only []
+      cases hrv : s'.revertJournal (some r'.id) with
+      | mk s'' rest =>
+        obtain ⟨ups, oe⟩ := rest
+        rw [hrv] at hsup2 hreqs
+        cases oe with
+        | some e => exact ent_cleanup _ (ent_of_sup s s'' hreqs hsup2 hent)
+        | none => exact ent_cleanup _ (ent_of_sup s s'' hreqs hsup2 hent)
+
+theorem Realloc_fail_ent (s : St) (hw : WF s) (hent : Ent s) (id : String) (nodes : Mask) (types : Nat) (e : Err)
+    (h : (s.Realloc id nodes types).2 = .error e) : Ent (s.Realloc id nodes types).1 := by
+  unfold St.Realloc at h ⊢
+  cases hr : s.req? id with
+  | none => exact hent
+  | some r =>
+    simp only [hr] at h ⊢
+    cases hv : s.validateRealloc r nodes types with
+    | error e' => exact hent
+    | ok v =>
+      obtain ⟨n1, t1, fl⟩ := v
+      cases fl with
+      | true => simp only [hv] at h; cases h
+      | false =>
+        simp only [hv] at h ⊢
+        have hg0 : Good s s.startJournal := good_start s hw.journal hw.ids
+        cases hx : s.startJournal.expand (r.zone ||| n1) t1 with
+        | mk newNodes newTypes =>
+          simp only [hx] at h ⊢
+          by_cases hz : (newNodes == 0) = true
+          · simp only [hz, if_true]
+            have hrr := revert_restores s _ hg0 hw.ids
+            apply ent_cleanup
+            exact ent_of_sup s _ hrr.2.1 (fun z hz => revertJournal_entries_sup _ _ z hz) hent
+          · simp only [hz, Bool.false_eq_true, if_false] at h ⊢
+            have hne : r.zone ||| n1 ||| newNodes ≠ 0 := by
+              intro hh
+              have := (Nat.or_eq_zero_iff.1 hh).2
+              simp [this] at hz
+            have hg1 := zoneMove_good s _ hg0 (r.zone ||| n1 ||| newNodes) hne id
+            have hg2 := handleOvercommit_good s _ hg1 (r.zone ||| n1 ||| newNodes)
+            have hnd1 : IdsNodup (s.startJournal.zoneMove (r.zone ||| n1 ||| newNodes) id) := by
+              unfold IdsNodup; rw [zoneMove_ids]; exact hw.ids
+            have hsup1 := handleOvercommit_entsup s _ (r.zone ||| n1 ||| newNodes) hnd1
+              (fun z hz => zoneMove_entries_sup s.startJournal _ _ z hz)
+            cases ho : (s.startJournal.zoneMove (r.zone ||| n1 ||| newNodes) id).handleOvercommit (r.zone ||| n1 ||| newNodes) with
+            | mk s3 oe =>
+              rw [ho] at hg2 hsup1
+              simp only [ho] at h ⊢
+              cases oe with
+              | none => simp only [] at h; cases h
+              | some e' =>
+                simp only []
+                have hrr := revert_restores s s3 hg2 hw.ids
+                apply ent_cleanup
+                exact ent_of_sup s _ hrr.2.1 (fun z hz => revertJournal_entries_sup _ _ z (hsup1 z hz)) hent
+
+theorem usageL_filter_le (l : List Req) (p : Req → Bool) (z : Mask) (hsz : ∀ q ∈ l, 0 ≤ q.size) :
+    usageL (l.filter p) z ≤ usageL l z := by
+  induction l with
+  | nil => simp [usageL]
+  | cons q l ih =>
+    have ih' := ih (fun x hx => hsz x (List.mem_cons_of_mem _ hx))
+    have hq := hsz q List.mem_cons_self
+    rw [List.filter_cons, usageL_cons]
+    split
+    · rw [usageL_cons]; omega
+    · split <;> omega
+
+theorem Release_inv (s : St) (hsz : Sizes s) (hent : Ent s) (hfit : FitInv s) (id : String)
+    (hreqs : (s.Release id).1.reqs = s.reqs.filter (·.id != id)) (hnodes : (s.Release id).1.nodes = s.nodes) :
+    Sizes (s.Release id).1 ∧ FitInv (s.Release id).1 := by
+  have hsub : ∀ q ∈ (s.Release id).1.reqs, q ∈ s.reqs := by
+    intro q hq; rw [hreqs] at hq; exact (List.mem_filter.1 hq).1
+  refine ⟨fun q hq => hsz q (hsub q hq), ?_⟩
+  intro q hq hz
+  have hold := hfit q (hsub q hq) hz
+  unfold St.zoneFree at hold ⊢
+  have hcap : (s.Release id).1.zoneCapacity q.zone = s.zoneCapacity q.zone := by unfold St.zoneCapacity; rw [hnodes]
+  rw [hcap, zoneUsage_eq, hreqs]
+  rw [zoneUsage_eq] at hold
+  have := usageL_filter_le s.reqs (·.id != id) q.zone hsz
+  omega
+
+theorem Release_ent (s : St) (hent : Ent s) (id : String) : Ent (s.Release id).1 := by
+  unfold St.Release
+  cases hr : s.req? id with
+  | none => exact hent
+  | some r =>
+    simp only []
+    split
+    · exact hent
+    · apply ent_cleanup
+      intro q hq hz
+      show q.zone ∈ (s.zoneRemove r.zone id).entries
+      rw [zoneRemove_entries]
+      have hq' : q ∈ (s.zoneRemove r.zone id).reqs.filter (·.id != id) := hq
+      obtain ⟨hq1, hq2⟩ := List.mem_filter.1 hq'
+      -- q is an element of s.reqs whose id differs from `id` (zoneRemove only touches `id`)
+      have : q ∈ s.reqs := by
+        unfold St.zoneRemove at hq1
+        simp only [hr] at hq1
+        split at hq1
+        · obtain ⟨q0, hq0, e⟩ := mem_setZone s id 0 q hq1
+          by_cases hid : (q0.id == id) = true
+          · simp only [hid, if_true] at e
+            have : q.id = id := by rw [e]; simpa using hid
+            simp [this] at hq2
+          · simp only [hid, Bool.false_eq_true, if_false] at e
+            rw [e]; exact hq0
+        · exact hq1
+      exact hent q this hz
 
 end Nri.LibMem
